@@ -125,7 +125,7 @@ def gen(rng, tier="quick", prop="C05"):
     size_max = rng.choice([1, 3, 8, 25, 40]) if not big else rng.choice([140, 200, 400])
     if big and tier == "quick":
         nbatch_max = min(nbatch_max, 2)
-        size_max = rng.choice([140, 200])
+        size_max = rng.choice([140, 200, 520])
     chain_x = [0.0]
     payload_no = [0]
 
